@@ -112,43 +112,41 @@ func checkC10(p *Prog, r *Report) {
 	}
 
 	// ---- C10/NO-DATA (sender) ----
-	r.Rule("C10/NO-DATA", "in sender.(*Transfer).SendFiles, receiveSums/sendFile/hashSearch are dominated by the false edge of st.Opts.DryRun(); on the true edge the only calls are Conn.WriteInt32(fileIndex) and the flag accessor", 3)
+	r.Rule("C10/NO-DATA", "in sender.(*Transfer).SendFiles and the sender functions it is split into, receiveSums/sendFile/hashSearch are dominated (locally or at every call site) by the false outcome of st.Opts.DryRun(); under the true outcome the only call is Conn.WriteInt32 of the file index read from the connection", 3)
 	sf := anchorFunc(p, r, pkgSender, "Transfer", "SendFiles")
 	if sf != nil {
 		isDry := isCallPred(dryAcc)
 		want := map[string]bool{"receiveSums": false, "sendFile": false, "hashSearch": false}
-		var idxRead ssa.Value
-		allCalls(sf, func(c ssa.CallInstruction) {
-			if calleeName(c) == "(*"+pkgWire+".Conn).ReadInt32" && idxRead == nil {
-				idxRead = c.Value()
-			}
-		})
-		allCalls(sf, func(c ssa.CallInstruction) {
-			sc := c.Common().StaticCallee()
-			if sc != nil && pkgPathOfFunc(sc) == pkgSender {
-				if _, isData := want[sc.Name()]; isData {
-					want[sc.Name()] = true
-					r.Cond(HasFact(c, false, isDry), "C10/NO-DATA", "SendFiles → "+sc.Name(), p.Pos(instrPos(c)), "data-path call not dominated by DryRun()==false")
+		isIdx := func(v ssa.Value) bool {
+			roots := g.paramRoots(v, 0)
+			for _, root := range roots {
+				rc, i := extractOf(root)
+				if rc == nil || i != 0 || calleeName(rc) != "(*"+pkgWire+".Conn).ReadInt32" {
+					return false
 				}
 			}
-			// calls under DryRun()==true
-			if HasFact(c, true, isDry) {
-				n := calleeName(c)
-				ok := false
-				if n == "(*"+pkgWire+".Conn).WriteInt32" {
-					args := c.Common().Args
-					if len(args) == 2 {
-						if ex, ok2 := args[1].(*ssa.Extract); ok2 && idxRead != nil && ex.Tuple == idxRead {
-							ok = true
-						}
+			return len(roots) > 0
+		}
+		for _, fn := range g.unitFuncs(sf) {
+			allCalls(fn, func(c ssa.CallInstruction) {
+				sc := c.Common().StaticCallee()
+				if sc != nil && pkgPathOfFunc(sc) == pkgSender && sc.Parent() == nil {
+					if _, isData := want[sc.Name()]; isData {
+						want[sc.Name()] = true
+						r.Cond(HasFact(c, false, isDry), "C10/NO-DATA", shortFn(fn)+" → "+sc.Name(), p.Pos(instrPos(c)), "data-path call not dominated by DryRun()==false")
 					}
 				}
-				r.Cond(ok, "C10/NO-DATA", "SendFiles[dry-run branch] call "+n, p.Pos(instrPos(c)), "only WriteInt32(fileIndex) may be called on the dry-run edge")
-			}
-		})
+				// calls under DryRun()==true
+				if HasFact(c, true, isDry) {
+					n := calleeName(c)
+					ok := n == "(*"+pkgWire+".Conn).WriteInt32" && len(c.Common().Args) == 2 && isIdx(c.Common().Args[1])
+					r.Cond(ok, "C10/NO-DATA", shortFn(fn)+"[dry-run branch] call "+n, p.Pos(instrPos(c)), "only WriteInt32(fileIndex) may be called on the dry-run edge")
+				}
+			})
+		}
 		for n, seen := range want {
 			if !seen {
-				r.Fatalf("C10/NO-DATA: SendFiles no longer calls %s; re-read the data path", n)
+				r.Fatalf("C10/NO-DATA: the SendFiles unit no longer calls %s; re-read the data path", n)
 			}
 		}
 	}
